@@ -119,7 +119,8 @@ func (m *KVMon[K, V]) Remove(k K) {
 	nb := m.n()
 	present := m.Mod.Has(k)
 	var before snapshotKV[K, V]
-	if !present && m.Map {
+	snap := !present && m.Map && !c.InGap()
+	if snap {
 		before = m.snapshot()
 	}
 	if present && (m.Balance || m.Map) {
@@ -138,7 +139,7 @@ func (m *KVMon[K, V]) Remove(k K) {
 		c.Count("obs:remove-present", 1)
 	} else {
 		c.Count("obs:remove-absent", 1)
-		if m.Map {
+		if snap {
 			after := m.snapshot()
 			if !before.equal(after, m.A.Sorted || m.A.Linked) {
 				c.Fail("remove-absent", "changed", "%s.Remove(%v) of an absent key changed the container: before keys=%s values=%s size=%d, after keys=%s values=%s size=%d",
@@ -191,7 +192,7 @@ type snapshotKV[K comparable, V comparable] struct {
 }
 
 func (m *KVMon[K, V]) snapshot() snapshotKV[K, V] {
-	return snapshotKV[K, V]{keys: m.A.M.Keys(), vals: m.A.M.Values(), size: m.A.M.Size()}
+	return snapshotKV[K, V]{keys: append([]K(nil), m.A.M.Keys()...), vals: append([]V(nil), m.A.M.Values()...), size: m.A.M.Size()}
 }
 
 func (s snapshotKV[K, V]) equal(o snapshotKV[K, V], ordered bool) bool {
@@ -208,6 +209,9 @@ func (s snapshotKV[K, V]) equal(o snapshotKV[K, V], ordered bool) bool {
 func (m *KVMon[K, V]) after(touched K, mutated bool) {
 	c := m.c
 	m.calls++
+	if !c.Observe() {
+		return
+	}
 	n := m.n()
 	full := n <= 64 || m.calls%16 == 0
 	if m.Map || m.Bidi {
@@ -244,6 +248,18 @@ func (m *KVMon[K, V]) after(touched K, mutated bool) {
 		}
 		c.State(h)
 	}
+}
+
+// Final runs the oracles once more at the end of a case, whatever the
+// observation schedule.
+func (m *KVMon[K, V]) Final() {
+	m.c.ObserveNow()
+	var zk K
+	if m.n() > 0 {
+		zk = m.Mod.Ents[0].Key
+	}
+	m.calls = 15 // force the full comparison
+	m.after(zk, false)
 }
 
 // probeGets asks for 3-6 keys: present, absent, below min, above max,
